@@ -206,6 +206,7 @@ Definition stmt_class (sch : schema) (st : dstate) (s : stmt) : Z :=
         if negb (k =? 0) then k
         else if match t with TC => upd_fk_child sch st sets sel | TP => upd_fk_parent sch st sets sel end then 15
         else 0
+  | SUpdE _ _ _ _ => 21        (* SET column = expression: observed on every run, outside the theorems *)
   end.
 
 (* the class of a history: the schema's class, else the class of its first statement that is in
@@ -222,8 +223,29 @@ Definition hist_class (sch : schema) (h : list stmt) : Z :=
   if k =? 0 then hist_class_from sch (d_empty sch) h else k.
 
 (* ------------------------------------------------------------------ the findings still open *)
+(* 20: UPDATE SET key = expression is refused ONLY because new values are found in the unique index
+   under rows that the same statement moves to another value (no two rows of the statement receive
+   the same value, no value is held by a row outside the statement): the updated table holds no
+   value twice, yet the statement is refused *)
+Definition upd_e_moves (sch : schema) (t : tid) (st : dstate) (c : nat) (e : expr) (w : option expr) : bool :=
+  let ds := cols_of sch t in
+  let ts := ts_of st t in
+  match e_trips c e (select_rows ds ts w) with
+  | Some trips =>
+      match validate_all ds (map snd trips) with
+      | Some true =>
+          col_is_key ds c && negb (uq_e_all false (get_idx ts c) c trips trips []) &&
+          uq_e_all true (get_idx ts c) c trips trips []
+      | _ => false
+      end
+  | None => false
+  end.
 Definition kn_stmt_class (sch : schema) (st : dstate) (s : stmt) : Z :=
   match s with
+  | SUpdE t c e w =>
+      if upd_e_moves sch t st c e w then 20
+      else let d' := apply_stmt sch (abs_db st) s in
+           if negb (fk_ok (s_c sch) (fst d') (snd d')) then 15 else 0
   | SIns t rows => if ins_partial sch t st rows then 10 else 0
   | SDel _ _ => 0
   | SUpd t sets w =>
